@@ -6,6 +6,8 @@
 (*  {"ev":"case","type":T,"variant":V,"src":X,"before":[routes],            *)
 (*   "after":[routes],"keys":[ids],"mtu":[ids],"conn":B,"info":[ids],        *)
 (*   "offline":[ids],"stored":[ids],"panic":B}                               *)
+(* and the same record with "ev":"lost","off":[ids],"how":H for pings that  *)
+(* arrive after good-byes and a loss of session objects.                     *)
 (***************************************************************************)
 EXTENDS ControlPlane
 
@@ -15,10 +17,9 @@ Ev == Trace[l]
 ToSet(sq) == {sq[sk] : sk \in DOMAIN sq}
 TraceInit == l = 1 /\ Init
 
-CaseOK ==
+Judge(al) ==
   LET before == ToSet(Ev.before)
       after == ToSet(Ev.after)
-      al == Allowed(Ev.type, Ev.variant, Ev.src, before)
   IN /\ ~Ev.panic
      /\ ToSet(Ev.keys) \subseteq al.keys            \* a hello / error from X touches only the session with X
      /\ ToSet(Ev.mtu) \subseteq al.mtu
@@ -29,7 +30,16 @@ CaseOK ==
      /\ ToSet(Ev.offline) \subseteq al.offline
      /\ ToSet(Ev.stored) \subseteq al.stored         \* no stored record unless the header key hashes to the source
 
-TraceNext == l <= Len(Trace) /\ l' = l + 1 /\ Ev.ev = "case" /\ CaseOK = TRUE /\ UNCHANGED vars
+CaseOK == Judge(Allowed(Ev.type, Ev.variant, Ev.src, ToSet(Ev.before)))
+
+(* {"ev":"lost", ... same fields ..., "off":[ids],"how":H}: the ping arrived after the routers `off` had said     *)
+(* good-bye and the victim had lost session objects (cleaner / restart); same judgement, AllowedLost.            *)
+LostOK == Judge(AllowedLost(Ev.type, Ev.variant, Ev.src, ToSet(Ev.before)))
+
+TraceNext == /\ l <= Len(Trace) /\ l' = l + 1
+             /\ \/ Ev.ev = "case" /\ CaseOK = TRUE
+                \/ Ev.ev = "lost" /\ LostOK = TRUE
+             /\ UNCHANGED vars
 
 TraceAccepted ==
   LET dd == TLCGet("stats").diameter
